@@ -26,12 +26,16 @@ BOUNDS = {
                        "workers 2..3; workers=-1 (cpu count)",
         "mul_p_map": "|data| 0..5 x workers 1..3 x {list, generator} (36); two consecutive calls in one process; "
                      "slow value; workers=-1",
+        "big_results": "results of 400 000 characters each (far beyond the capacity of an OS pipe), f taking 0.3 s per item so that every "
+                       "result is produced after the whole input was distributed: mul_p_map (6 items / 2 workers, 2 items / 3 workers) "
+                       "and FunctorMap (6 / 2, 3 / 3)",
         "random": "10 random configurations with |data| up to 20",
     },
     "thorough": {
         "functor_map": "|data| 0..8 x chunk 1..4 x workers 1..4 x {list, generator}; all 2-call histories over 5 "
                        "call shapes x workers 1..3; slow value at every position",
         "mul_p_map": "|data| 0..8 x workers 1..4; |data| 40 (more than the size of the shared work queue)",
+        "big_results": "as quick",
         "random": "150 random configurations with |data| up to 60",
     },
 }
@@ -41,11 +45,19 @@ RULE = ("One case = one FunctorMap (with a history of calls on it) or a history 
         "call, the worker processes are gone after the context / the call. Trivial: all inputs empty.")
 
 
-def _f(slow_value, slow_s):
+def _ref(x, big=0):
+    """reference result; big > 0: a payload of `big` characters derived from f_ref(x) (far beyond the capacity of an OS pipe, so a worker
+    cannot finish before its result was taken from the queue)"""
+    return PU.f_ref(x) if not big else (str(PU.f_ref(x) % 10) * big)
+
+
+def _f(slow_value, slow_s, big=0, every_s=0.0):
     def f(x):
+        if every_s:
+            time.sleep(every_s)
         if slow_value is not None and x == slow_value:
             time.sleep(slow_s)
-        return PU.f_ref(x)
+        return _ref(x, big)
     return f
 
 
@@ -76,6 +88,10 @@ def cases(tier, seed):
         for pos in (0, 2, 4):
             yield {"kind": "mul_p_map", "workers": w, "slow_value": 10 + pos, "slow_s": 0.2, "calls": [{"n": 5}]}
     yield {"kind": "mul_p_map", "workers": -1, "calls": [{"n": 5}]}
+    # results far bigger than an OS pipe, all produced only after the whole input was distributed (a worker cannot exit before its
+    # result was taken from the queue: joining before draining would block)
+    for kind, n, w in (("mul_p_map", 6, 2), ("mul_p_map", 2, 3), ("functor_map", 6, 2), ("functor_map", 3, 3)):
+        yield {"kind": kind, "workers": w, "big": 400000, "every_s": 0.3, "calls": [{"n": n, "cs": 1}]}
     if not quick:
         yield {"kind": "mul_p_map", "workers": 2, "calls": [{"n": 40}]}
         yield {"kind": "mul_p_map", "workers": 3, "calls": [{"n": 100, "lazy": True}]}
@@ -105,14 +121,14 @@ def _values(k, call):
 def _body_functor_map(case):
     import multiprocessing
     from windpyutils.parallel.pools import FunctorMap
-    f = _f(case.get("slow_value"), case.get("slow_s", 0.0))
+    f = _f(case.get("slow_value"), case.get("slow_s", 0.0), case.get("big", 0), case.get("every_s", 0.0))
     m = FunctorMap(f, case["workers"])
     with m:
         for k, call in enumerate(case["calls"]):
             values = _values(k, call)
             data = PU.make_input(values, call.get("lazy", False))
             got = list(m(data, call["cs"]))
-            exp = [PU.f_ref(x) for x in values]
+            exp = [_ref(x, case.get("big", 0)) for x in values]
             if got != exp:
                 return _fail("functormap/results" if len(case["calls"]) == 1 else "functormap/call%d-results" % k,
                              {"call": k, "results": exp}, {"call": k, "results": got})
@@ -130,12 +146,12 @@ def _body_functor_map(case):
 def _body_mul_p_map(case):
     import multiprocessing
     from windpyutils.parallel.maps import mul_p_map
-    f = _f(case.get("slow_value"), case.get("slow_s", 0.0))
+    f = _f(case.get("slow_value"), case.get("slow_s", 0.0), case.get("big", 0), case.get("every_s", 0.0))
     for k, call in enumerate(case["calls"]):
         values = _values(k, call)
         data = PU.make_input(values, call.get("lazy", False))
         got = mul_p_map(f, data, case["workers"])
-        exp = [PU.f_ref(x) for x in values]
+        exp = [_ref(x, case.get("big", 0)) for x in values]
         if got != exp:
             return _fail("mul_p_map/results" if len(case["calls"]) == 1 else "mul_p_map/call%d-results" % k,
                          {"call": k, "results": exp}, {"call": k, "results": got})
